@@ -254,7 +254,8 @@ const NAMES: [&str; 18] = ["EST5EDT,M3.2.0/-0:30,M11.1.0", "EST5EDT,M3.2.0/+2,M1
 
 pub fn arb_case() -> SBoxedStrategy<ResCase> {
     let name = proptest::sample::select(NAMES.to_vec());
-    let pad = proptest::sample::select(vec!["", " ", "\t", "\n", "  ", "\x0c", "\r"]);
+    // ASCII white space (weighted up), then characters that only Unicode calls white space: those are part of the value, never trimmed
+    let pad = proptest::sample::select(vec!["", "", " ", " ", "\t", "\n", "  ", "\x0c", "\r", "\u{b}", "\u{a0}", "\u{2003}", "\u{85}", "\u{3000}"]);
     let tz = prop_oneof![
         1 => Just(String::new()),
         1 => Just("localtime".to_string()),
@@ -292,7 +293,7 @@ pub fn arb_case() -> SBoxedStrategy<ResCase> {
 
 pub fn run(ctx: &Ctx) -> Outcome {
     let mut out = Outcome::new(
-        "TZ values {empty, 'localtime', names, TZ descriptions that are also plausible file names ('UTC0', 'EST5EDT,M3.2.0,M11.1.0'), ':'-prefixed, absolute, relative, padded with ASCII whitespace on either side, ':' after padding, non-sentences, non-ASCII} x directory lists of 0..3 entries (incl. empty and relative directories) \
+        "TZ values {empty, 'localtime', names, TZ descriptions that are also plausible file names ('UTC0', 'EST5EDT,M3.2.0,M11.1.0'), ':'-prefixed, absolute, relative, padded with ASCII or Unicode-only whitespace on either side, ':' after padding, non-sentences, non-ASCII} x directory lists of 0..3 entries (incl. empty and relative directories) \
          x virtual file systems populated preferentially on the candidate paths (valid TZif files of distinct zones, garbage, empty files), driven through the injectable read function, which records every requested path. Oracle: a reference resolver written from the property text / tzset(3): exact sequence of opened paths + outcome class + decoded zone. \
          Non-trivial: at least two candidate paths, or file and description both viable, or a malformed file present on a candidate path, or a ':' value, or a padded value.",
     );
